@@ -2,7 +2,8 @@
 
 Domain : methods over macro names A, B, C with definitions, redefinitions (before / between / after calls), nested
          calls, direct and mutual recursion (cycles of length 1..3, closing call first / later / nested in a block of
-         the body), calls inside blocks and watch bodies, recursion through a Watch/Alarm body inside a macro body, plus up to 3 live edits per run (body change / added line /
+         the body), calls inside blocks and watch bodies, recursion through a Watch/Alarm body inside a macro body, re-definition while a call of the name is in progress
+         (Macro line inside a macro body), macros ending the caller's Block with a final End block, plus up to 3 live edits per run (body change / added line /
          removed line / removed definition of a called or an uncalled macro, benign comment).
 Oracle : reference model `vp.harness.macro_h.simulate` written from the statement.
   trace      the sequence of observed effects (Mark values, Quick command executions, Block starts - every line has a
@@ -93,11 +94,15 @@ def _started_class(sim: M.Sim, n_obs: int, def_id: str, for_later: bool = False)
         return "ambiguous"
     if any(i < p for i in calls):
         name = sim.def_name[def_id]
-        later_defs = sim.defs[sim.defs.index(def_id) + 1:]
-        same = [d for d in later_defs if sim.def_name[d] == name]
+        # other definitions of the name that can run after this one: textually later ones, and definitions nested in macro
+        # bodies (they run when their macro is called, wherever they stand in the text)
+        nested = {s["line"] for s in sim.steps if s["kind"] == "macro" and s["stack"]}
+        same = [d for d in sim.defs if d != def_id and sim.def_name[d] == name
+                and (sim.defs.index(d) > sim.defs.index(def_id) or d in nested)]
         if same and for_later:
             return "superseded"
-        exec_steps = [i for i, s in enumerate(sim.steps) if s["kind"] == "macro" and s["line"] in same]
+        own = [i for i, s in enumerate(sim.steps) if s["kind"] == "macro" and s["line"] == def_id]
+        exec_steps = [i for i, s in enumerate(sim.steps) if s["kind"] == "macro" and s["line"] in same and (not own or i > own[0])]
         if any(i < q for i in exec_steps) or (same and sim.outcome != "complete" and not exec_steps):
             return "superseded"
         return "started"
@@ -381,6 +386,11 @@ def run_shard(col, cfg):
             classes.append("cycle:" + sim0.cycle_cls)
         if sim0.redefinition_between_calls:
             classes.append("redefinition-between-calls")
+        if sim0.block_ended_by_macro:
+            classes.append("block-ended-by-macro-then-called-again" if any(len(v) >= 2 for v in sim0.calls_resolved.values())
+                           else "block-ended-by-macro")
+        if sim0.nested_def_executed:
+            classes.append("redefined-while-call-in-progress")
         if any(len(s["stack"]) >= 2 for s in sim0.steps):
             classes.append("nested-call-depth>=2")
         if sim0.watch_steps and any(s["kind"] == "callmacro" for s in sim0.steps):
